@@ -22,5 +22,15 @@ for n in $NAMES; do
   if [ $conc -gt 0 ]; then echo "$n: $P caught, $conc with a concrete input, $nofi tie-only (rc=$rc)";
   elif [ $nofi -gt 0 ]; then echo "$n: $P caught ONLY as no-failing-input-found ($nofi) (rc=$rc)";
   else echo "$n: $P MISSED (rc=$rc)"; fi
+  TOUCHED="$TOUCHED $P"
 done
+# a replay minimised on a changed tree must be silent on the unchanged one before it is kept
+# (DESIGN.md §14.4 item 17): re-run the quick check of every property touched, with the saved
+# files in place of corpus/seeds
+if [ -n "$SAVE_CORPUS" ] && [ -d "$SAVE_CORPUS" ]; then
+  for f in "$SAVE_CORPUS"/*.ops; do [ -f "$f" ] && cp "$f" corpus/seeds/; done
+  for P in $(echo $TOUCHED | tr ' ' '\n' | sort -u); do
+    ./check $P quick 2>&1 | grep -E '^VIOLATION' | sed "s/^/UNCHANGED TREE, $P: /"
+  done
+fi
 git -C /repo status --short | grep -v '^??' | head -3
